@@ -405,6 +405,50 @@ func finishShape(sh *shape) {
 			wa(a, false)
 		}
 	}
+	// interplay of S's nested arrows with an annotated Y
+	if len(g.NTs) > 1 {
+		yNode := g.NTs[1].Default != nil && g.NTs[1].Default.Kind == extsem.NodeArrow
+		for _, a := range g.NTs[1].Alts {
+			for _, ar := range (&extsem.Grammar{NTs: []*extsem.Nonterm{{Alts: []*extsem.Alt{a}}}}).Arrows() {
+				if ar.Kind == extsem.NodeArrow {
+					yNode = true
+				}
+			}
+		}
+		if yNode {
+			feats["Y:annotated"] = true
+			if sh.nested > 0 {
+				feats["Y:annotated+nested-arrow-in-S"] = true
+			}
+			// a nested arrow of S that is closed before a later reference to Y in the same
+			// rule: reduce order differs from the order by position
+			for _, a := range g.NTs[0].Alts {
+				closed := false
+				var oe func(e *extsem.Expr)
+				var oa func(a *extsem.Alt, top bool)
+				oe = func(e *extsem.Expr) {
+					if e.Kind == extsem.KRef && closed {
+						feats["order:nested-arrow-left-of-annotated-Y"] = true
+					}
+					for _, x := range e.Alts {
+						oa(x, false)
+					}
+					if e.Sub != nil {
+						oe(e.Sub)
+					}
+				}
+				oa = func(a *extsem.Alt, top bool) {
+					for _, p := range a.Parts {
+						oe(p)
+					}
+					if !top && a.Arrow != nil && a.Arrow.Kind == extsem.NodeArrow {
+						closed = true
+					}
+				}
+				oa(a, true)
+			}
+		}
+	}
 	for f := range feats {
 		sh.feats = append(sh.feats, f)
 	}
